@@ -520,7 +520,7 @@ def stream_safe_divide(run):
             for den in grid:
                 for npy in (False, True):
                     items.append((num, den, mn, npy))
-    for _ in range(run.n(400, 20000)):
+    for _ in range(run.n(400, 12000)):
         mn = rng.choice([Fr(1, 1024), Fr(MN), Fr(MN), Fr(1, 8), Fr(0)])
         sc = rng.choice([Fr(1, 4096), Fr(1, 256), Fr(1), Fr(64)])
         items.append((rng.randint(-4096, 4096) * sc, rng.choice([0, 1, 1, 1]) * rng.randint(-4096, 4096) * sc, mn,
@@ -1174,9 +1174,9 @@ def start_fits(run, hjobs=None, djobs=None):
     hv = ["plain", "netmeter", "noisy", "ghi"]
     dv = ["plain", "netmeter", "noisy"]
     if hjobs is None:
-        hjobs = [(run.rng.randrange(10**9), hv[i % len(hv)], "short" if run.quick() else "long") for i in range(run.n(3, 40))]
+        hjobs = [(run.rng.randrange(10**9), hv[i % len(hv)], "short" if run.quick() else "long") for i in range(run.n(3, 24))]
     if djobs is None:
-        djobs = [(run.rng.randrange(10**9), dv[i % len(dv)]) for i in range(run.n(2, 30))]
+        djobs = [(run.rng.randrange(10**9), dv[i % len(dv)]) for i in range(run.n(2, 16))]
     import multiprocessing as mp
     if _POOL[0] is None:
         _POOL[0] = mp.get_context("fork").Pool(int(os.environ.get("C16_PROCS", "10")))
@@ -1311,19 +1311,19 @@ def main():
             total -= size
     handles = start_fits(run) if run.quick() else None
     first = True
-    for b in batches(cnt(run, 1000, 24000)):
+    for b in batches(cnt(run, 1000, 12000)):
         stream_baseline(run, (list(corpus.get("baseline", [])) if first else []) + series(b))
         first = False
     phase(run, "baseline + gate done")
     first = True
-    for b in batches(cnt(run, 160, 3000)):
+    for b in batches(cnt(run, 160, 2000)):
         stream_hourly_stub(run, (list(corpus.get("hourly_stub", [])) if first else []) + series(b))
         first = False
     phase(run, "hourly stub done")
-    for b in batches(cnt(run, 160, 3000)):
+    for b in batches(cnt(run, 160, 2000)):
         stream_daily_stub(run, [gen_daily(rng, k) for k in range(b)])
     phase(run, "daily stub done")
-    for b in batches(cnt(run, 150, 3000)):
+    for b in batches(cnt(run, 150, 2000)):
         # mostly ordinary baselines here (the uncertainty needs a defined cvrmse_autocorr_adj and n' > 0)
         stream_reporting(run, series(b, lambda k: rng.choice([0, 1, 2, 0, 1, 2, 6, 8, 100])))
     phase(run, "reporting done")
